@@ -80,13 +80,17 @@ def nav_shape(xml):
 
 
 def run(ctx):
-    pr = core.prove("C15")
+    pr = core.prove("C15", extra_modules=["MC.Props.C15Files"])
     core.proof_coverage(ctx, pr, "lake build MC.Props.C15 && lake env lean build/audit_C15.lean (#print axioms)", [
         "modelled, not verified: get_language_dir, find_file (with the definitions.yaml exception and find_any_style_file), set_speech_files, set_braille_files of src/prefs.rs as MC.Fallback over a "
         "listing of the rules directory taken on every run; hook H6 reports the eleven files the library resolved and the model must predict each of them for every configuration",
         "NOT modelled: that a shipped rule file parses, compiles its XPath and matches (YAML and XPath are evaluated by third-party engines): decided on the implementation by exhausting the finite "
         "space (language | language-region | unknown tags) x style x verbosity x braille code x a corpus covering the element kinds",
-        "find_any_style_file returns the first *_Rules.yaml that read_dir yields (OS order): for an unknown style the model accepts any style file of that directory"])
+        "find_any_style_file returns the first *_Rules.yaml that read_dir yields (OS order): for an unknown style the model accepts any style file of that directory",
+        "files_follow_language (MC/Props/C15Files.lean, over the selection layer MC/Model/PrefFiles.lean of reset_files_from_preference_change): after EVERY history of preference requests -- "
+        "Language, Language=Auto + LanguageAuto, SpeechStyle, in any order, accepted or rejected -- the language whose speech-side files are selected and the language the style file was "
+        "looked up in are the language in force; not provable of the code before dafc07b and 13af2b8. Tied to the code by the route battery: the model's selection, resolved by MC.Fallback, "
+        "must give the eleven files of hook H6 for every route"])
     core.need_harness(ctx)
     core.need_driver(ctx)
     im, mo = core.impl(), core.model()
@@ -159,7 +163,7 @@ def run(ctx):
             oracle_fail.append({"why": "a language that falls back to English does not give the English answer", "config": [l], "got": got[k], "english": en_answers[k], "lines": lines})
     # 1c. the other route of selecting a language: Language=Auto and the host's language in LanguageAuto. It selects the files that Language=<tag> selects
     # and gives the same answers (also when LanguageAuto is changed a second time, and when it is given before Language=Auto is... not allowed: rejected)
-    n_auto = 0
+    n_auto = n_auto_model = 0
     auto_langs = langs + ["xx", "en-xx", "zh-cn"]
     def by_route(route_prefs):
         lines = core.prelude([{"op": "set_pref", "name": n, "value": v} for n, v in route_prefs] + [{"op": "hook", "which": "rule_files"}])
@@ -180,6 +184,21 @@ def run(ctx):
             direct = direct_style if S in route else direct_plain
             got = by_route(route)
             n_auto += 1
+            # the model of the selection (MC.Prefs.runOpsF, theorem files_follow_language) predicts the language of the files; MC.Fallback resolves them
+            mf = mo.run([{"op": "prefs_files", "ops": [list(x) for x in route]}])[0]
+            if mf.get("r") == "ok" and not got[0] and isinstance(got[1], list):
+                fl, sl = mf["v"]
+                style = ([v for n_, v in route if n_ == "SpeechStyle"] or ["ClearSpeak"])[-1]
+                root = core.rules_dir()
+                impl_files = {n_: os.path.relpath(p_, root) for n_, p_ in got[1]}
+                for lang_, names in ((fl, ("overview", "navigation", "speech_unicode", "speech_unicode_full", "speech_defs")), (sl, ("speech",))):
+                    mres = mo.run([{"op": "resolve_files", "dirs": dirs, "files": files, "lang": lang_, "style": style, "code": "Nemeth"}])[0]
+                    if mres.get("r") != "ok":
+                        continue
+                    for n_, v_ in mres["v"]["files"]:
+                        if n_ in names and v_ != impl_files.get(n_):
+                            disagreements.append({"config": [l], "route": [list(x) for x in route], "file": n_, "impl": impl_files.get(n_), "model": v_, "model_selection": [fl, sl], "lines": got[3]})
+                n_auto_model += 1
             if direct[0]:
                 continue            # the tag itself is rejected
             if got[0]:
@@ -232,7 +251,7 @@ def run(ctx):
     im.close()
     mo.close()
     ctx.coverage.update({
-        "evaluations": n_eval + n_res + n_auto, "language_auto_routes": n_auto, "distinct_nontrivial": n_res,
+        "evaluations": n_eval + n_res + n_auto, "language_auto_routes": n_auto, "language_auto_routes_against_the_selection_model": n_auto_model, "distinct_nontrivial": n_res,
         "rule": "resolution: every language directory, regional variant and 12 unknown/odd tags x every style file name + an unknown one x braille codes + an unknown one, the eleven resolved files "
                 "compared with the model (hook H6); operation: every language x style x a verbosity (thorough: all) with a braille code, and every braille code, over a corpus of "
                 + str(len(xmls)) + " expressions covering the element kinds and the common intents: speech, overview, braille and two navigation commands must answer. non-trivial = resolutions compared",
